@@ -554,6 +554,8 @@ def work(check, unit_c, wd_dir, tier):
 
 if __name__ == '__main__':
     import sys
+    from .core import install_cleanup
+    install_cleanup()
     job = _Job(json.load(open(sys.argv[1])))
     try:
         print(json.dumps(work(job, job.unit_c, job.wd_dir, job.tier)))
